@@ -6,7 +6,6 @@ import (
 	"log"
 	"net"
 	"runtime"
-	"strings"
 	"sync"
 	"sync/atomic"
 	"testing"
@@ -49,15 +48,25 @@ func TestC08(t *testing.T) {
 // c18Src: alive gossip over the packet path from allowed / disallowed source addresses with
 // allowed / disallowed inner addresses, on a node with an allow-list.
 func c18Src(r *rng, id string) {
-	rcv, err := newCnode(ccfg{name: "R", cidrs: []string{"10.0.0.0/8", "fd00::/8"}})
+	alist := allowLists[r.intn(len(allowLists))]
+	nets, _ := ml.ParseCIDRs(alist)
+	oracle := func(ip net.IP) bool {
+		for _, n := range nets {
+			if n.Contains(ip) {
+				return true
+			}
+		}
+		return false
+	}
+	rcv, err := newCnode(ccfg{name: "R", cidrs: alist})
 	if err != nil {
 		emit("C18 src id=%s err=create", id)
 		return
 	}
 	defer rcv.m.Shutdown()
 	pool := newAddrPool()
-	src := []string{"10.0.0.1:7946", "192.168.0.9:7946", "[fd00::7]:7946", "[2001:db8::1]:7946", "10.200.1.1:1"}[r.intn(5)]
-	inner := []int{1, 2, 3, 4, 5, 6, 7, 8}[r.intn(8)]
+	src := []string{"10.0.0.1:7946", "192.168.0.9:7946", "[fd00::7]:7946", "[2001:db8::1]:7946", "10.200.1.1:1", "10.0.32.1:7946", "128.0.0.1:7946", "100.0.0.1:7946"}[r.intn(8)]
+	inner := []int{1, 2, 3, 4, 5, 6, 7, 8, 9, 10, 11, 12}[r.intn(12)]
 	carrier := []string{"plain", "compound", "compressed"}[r.intn(3)]
 	msg := ml.VerifEncodeAlive(uint32(1+r.intn(3)), "n1", pool.addrs[inner], 7946, nil, []uint8{1, 5, 2, 0, 0, 0})
 	switch carrier {
@@ -90,8 +99,9 @@ func c18Src(r *rng, id string) {
 		}
 	}
 	evs := rcv.ev.take()
-	srcOK := b2i(strings.HasPrefix(src, "10.") || strings.HasPrefix(src, "[fd00"))
-	emit("C18 src id=%s src=%d inner=%d carrier=%s listed=%d recorded=%d events=%d panic=%d", id, srcOK, inner, carrier, listed, recorded, len(evs), pan)
+	srcOK := b2i(oracle(ua.IP))
+	innerOK := b2i(oracle(net.IP(pool.addrs[inner])))
+	emit("C18 src id=%s src=%d inner=%d innerok=%d carrier=%s listed=%d recorded=%d events=%d panic=%d", id, srcOK, inner, innerOK, carrier, listed, recorded, len(evs), pan)
 }
 
 // c07Conc: concurrent claims about different members; the event delegate checks that no
@@ -162,17 +172,18 @@ func TestC18(t *testing.T) {
 	forCases(n, 118, "h", func(i int, r *rng, id string) {
 		c := randomCfg(r)
 		c.allowlist = true
+		c.alist = r.intn(len(allowLists))
 		k := 1 + r.intn(30)
 		ops := make([]mop, 0, k)
 		nt := 0
 		for j := 0; j < k; j++ {
 			o := randomOp(r, c, 1, &nt)
 			if o.kind == 'A' && r.chance(1, 2) {
-				o.addr = []int{3, 5, 6, 4, 7, 8}[r.intn(6)]
+				o.addr = []int{3, 5, 6, 4, 7, 8, 9, 10, 11, 12, 9, 11}[r.intn(12)]
 			}
 			for e := range o.entries {
 				if r.chance(1, 2) && o.entries[e].name != "S" {
-					o.entries[e].addr = []int{3, 5, 6, 4, 7, 8}[r.intn(6)]
+					o.entries[e].addr = []int{3, 5, 6, 4, 7, 8, 9, 10, 11, 12}[r.intn(10)]
 				}
 			}
 			ops = append(ops, o)
